@@ -40,6 +40,7 @@ ID = 'C19'
 LEAN_MODULES = ['Py65.Props.C19', 'Py65.Props.C19b']
 NAMESPACES = ['Py65.Props.C19']
 LEVEL = 'proof'
+USES_PROLOGUE = True
 USES_GEN = False
 EXPECTED_THEOREMS = [
     'Py65.Props.C19.tilde_consistent', 'Py65.Props.C19.fmt_roundtrip_hex', 'Py65.Props.C19.fmt_roundtrip_bin',
